@@ -37,10 +37,7 @@
 EXTENDS Prepare, Json, IOUtils, TLCExt
 
 Log == ndJsonDeserialize(IOEnv.VF_TRACE)
-\* arity of every statement name any scenario of the file declares (records = functions on the names)
-Inits == {i \in 1 .. Len(Log) : Log[i].ev = "init"}
-TArity == [n \in UNION {DOMAIN Log[i].arity : i \in Inits} |->
-             Log[CHOOSE i \in Inits : n \in DOMAIN Log[i].arity].arity[n]]
+TArity == Log[1].arity          \* a record = a function on the statement names (the same in every init line)
 TCanc == Nat
 
 VARIABLES l,    \* next line
@@ -53,7 +50,7 @@ Empty == [plan |-> <<>>, lru |-> <<>>, ent |-> <<>>, fl |-> <<>>, ex |-> <<>>, k
 InitEx == [pc |-> "lookup", idx |-> 1, cur |-> 0, got |-> <<>>, waited |-> {}, unprep |-> NoId, res |-> "none",
            nframes |-> 0, frame |-> NoFrame, started |-> FALSE, rep |-> 0]
 X0 == [scn |-> 0, cap |-> 1, pend |-> <<>>, sends |-> <<>>, lost |-> FALSE, ordOK |-> TRUE, over |-> NoKey,
-       expect |-> NoKey, expId |-> NoId, canc |-> {}, stamp |-> 0, ust |-> <<>>, unp |-> <<>>, unpn |-> <<>>, kinds |-> <<>>, lostn |-> 0]
+       expect |-> NoKey, expId |-> NoId, canc |-> {}, stamp |-> 0, ust |-> <<>>, unp |-> <<>>, unpn |-> <<>>, kinds |-> <<>>, lostn |-> 0, lean |-> FALSE]
 NoUnp == [id |-> NoId, cnt |-> 0]
 \* One forgotten statement can legitimately cost an execution TWO UNPREPARED answers in a row (see ExecV), so
 \* "the driver prepares again and the query still succeeds" demands at least two re-preparations in a row.  A
@@ -341,8 +338,32 @@ OnFinal(ev, T, Y) ==
   ELSE Res(T, Y, IF ev.len > Y.cap \/ Y.over # NoKey THEN "CapExceeded" ELSE "",
            IF ev.len # Len(T.lru) THEN "cache-history-inconsistent" ELSE "")
 
+\* Lean scenarios (burst driver): only misses, removals and the PREPAREs the node received are logged - exactly
+\* what PreparedOnce speaks about.  Every entry that leaves the cache counts as a removal (a superset of the
+\* removals the property licenses, so this cannot alarm falsely); hits are not logged.
+LeanStep(ev, T, Y) ==
+  CASE ev.ev = "c_miss" ->
+         LET k == ev.key
+             T1 == ExtKey(T, k)
+             over == InLRU(T1, k)
+             T2 == IF over THEN ForceDrop(T1, k) ELSE T1
+             f == Len(T2.fl) + 1
+             T3 == [T2 EXCEPT !.lru = <<k>> \o @, !.ent = Put(@, k, f),
+                              !.fl = Append(@, [key |-> k, by |-> 0, st |-> "sent", id |-> NoId])]
+         IN IF ~ev.kok \/ ev.len # Len(T.lru) THEN Res(T, [Y EXCEPT !.lost = TRUE], PreV(ev, Y), "cache-history-inconsistent")
+            ELSE Res(T3, [PreY(Y) EXCEPT !.over = IF Len(T3.lru) > Y.cap THEN k ELSE NoKey], PreV(ev, Y),
+                     IF over THEN "insert-over-existing-entry" ELSE "")
+    [] ev.ev = "c_gone" ->
+         IF ev.kok /\ InLRU(T, ev.key) THEN Res(Drop(T, ev.key), [Y EXCEPT !.over = NoKey], "", "")
+         ELSE Lose(T, Y, "cache-history-inconsistent")
+    [] ev.ev = "n_prepare" -> LET T1 == ExtKey(T, ev.key) IN Res([T1 EXCEPT !.nprep[ev.key] = @ + 1], Y, "", "")
+    [] ev.ev = "end" -> OnFinal(ev, T, Y)
+    [] ev.ev = "e_hang" -> Res(T, Y, "", "executor-did-not-return")
+    [] OTHER -> Res(T, Y, "", "")
+
 StepOf(ev, T, Y) ==
-  CASE ev.ev = "start" -> Res(T, [Y EXCEPT !.pend = Put(@, ev.e, [items |-> ev.items]), !.kinds = Put(@, ev.e, ev.kind)], "", "")
+  CASE Y.lean -> LeanStep(ev, T, Y)
+    [] ev.ev = "start" -> Res(T, [Y EXCEPT !.pend = Put(@, ev.e, [items |-> ev.items]), !.kinds = Put(@, ev.e, ev.kind)], "", "")
     [] ev.ev = "e_cancel" -> Res(T, [Y EXCEPT !.canc = @ \cup {ev.e}], "", "")
     \* a binding callback (Session.Bind / Batch.Bind) was handed prepared metadata: it must be an id and the
     \* bind markers of THAT statement
@@ -371,14 +392,18 @@ StepOf(ev, T, Y) ==
     [] OTHER -> Res(T, Y, "", "unknown-event")
 
 \* model-based part of the property, evaluated on the state after the step; only what is NEWLY false
-ModelV(T0, T1) ==
-  CASE ~PreparedOnceT(T1) /\ (\E k \in DOMAIN T1.nprep : ~PreparedOnceK(T1, k) /\ (k \notin DOMAIN T0.nprep \/ PreparedOnceK(T0, k)))
-         -> "PreparedOnce"
+\* (only the executor and the key the event is about can change the truth of their clauses; quantifying over
+\* all of them at every step made long scenarios quadratic)
+ModelV(T0, T1, e0, k0) ==
+  LET ES == IF e0 \in EX(T1) THEN {e0} ELSE {}
+      KS == IF k0 \in DOMAIN T1.nprep THEN {k0} ELSE {}
+  IN
+  CASE \E k \in KS : ~PreparedOnceK(T1, k) /\ (k \notin DOMAIN T0.nprep \/ PreparedOnceK(T0, k)) -> "PreparedOnce"
     [] ~FailedNotCachedT(T1) /\ FailedNotCachedT(T0) -> "FailedNotCached"
-    [] \E e \in EX(T1) : ~FailedReportedE(T1, e) /\ (e \notin EX(T0) \/ FailedReportedE(T0, e)) -> "FailedReported"
-    [] \E e \in EX(T1) : ~ExecAttributionE(T1, e) /\ (e \notin EX(T0) \/ ExecAttributionE(T0, e) \/ T0.ex[e].nframes # T1.ex[e].nframes)
+    [] \E e \in ES : ~FailedReportedE(T1, e) /\ (e \notin EX(T0) \/ FailedReportedE(T0, e)) -> "FailedReported"
+    [] \E e \in ES : ~ExecAttributionE(T1, e) /\ (e \notin EX(T0) \/ ExecAttributionE(T0, e) \/ T0.ex[e].nframes # T1.ex[e].nframes)
          -> "ExecAttribution"
-    [] \E e \in EX(T1) : ~ArityCheckedE(T1, e) /\ (e \notin EX(T0) \/ ArityCheckedE(T0, e)) -> "ArityChecked"
+    [] \E e \in ES : ~ArityCheckedE(T1, e) /\ (e \notin EX(T0) \/ ArityCheckedE(T0, e)) -> "ArityChecked"
     [] OTHER -> ""
 
 EvKey(ev) == IF "key" \in DOMAIN ev THEN ev.key ELSE NoKey
@@ -390,10 +415,10 @@ TNext ==
   /\ LET ev == Log[l] IN
      IF ev.ev = "init"
      THEN /\ S' = Empty
-          /\ X' = [X0 EXCEPT !.scn = ev.scn, !.cap = ev.cap]
+          /\ X' = [X0 EXCEPT !.scn = ev.scn, !.cap = ev.cap, !.lean = ("lean" \in DOMAIN ev /\ ev.lean)]
           /\ out' = Quiet
      ELSE LET R == StepOf(ev, S, X)
-              mv == IF R.Y.lost \/ R.v # "" THEN "" ELSE ModelV(S, R.T)
+              mv == IF R.Y.lost \/ R.v # "" THEN "" ELSE ModelV(S, R.T, EvE(ev), EvKey(ev))
           IN /\ S' = R.T
              /\ X' = R.Y
              /\ out' = [v |-> IF R.v # "" THEN R.v ELSE mv, d |-> R.d, line |-> l, scn |-> X.scn,
